@@ -44,32 +44,34 @@ RECURSIVE Advance(_, _, _)
 Advance(dl, delta, now) == IF dl <= now /\ delta > 0 THEN Advance(dl + delta, delta, now) ELSE dl
 
 \* one pass over the timers.  snap: the snapshot (sequence of rids) still to visit; nw: next wake-up so far;
-\* fired: sequence of [rid, cb] fired in this pass (in order).  Script(_) gives the callbacks' behaviour.
-RECURSIVE TimerPass(_, _, _, _, _, _)
-TimerPass(Script(_), ts, snap, nw, now, fired) ==
-    IF snap = <<>> THEN [ts |-> ts, nw |-> nw, fired |-> fired]
+\* now: time.time() at the start of the pass (what the deadlines are compared with); clk: the clock, which advances
+\* while a callback is busy (Script(cb).busy); fired: sequence of [rid, cb, t] fired in this pass (in order).
+RECURSIVE TimerPass(_, _, _, _, _, _, _)
+TimerPass(Script(_), ts, snap, nw, now, clk, fired) ==
+    IF snap = <<>> THEN [ts |-> ts, nw |-> nw, fired |-> fired, clk |-> clk]
     ELSE LET rid == Head(snap) IN
-         IF ~HasRid(ts.tms, rid) THEN TimerPass(Script, ts, Tail(snap), nw, now, fired)     \* removed meanwhile
+         IF ~HasRid(ts.tms, rid) THEN TimerPass(Script, ts, Tail(snap), nw, now, clk, fired)     \* removed meanwhile
          ELSE LET e == ts.tms[IdxRid(ts.tms, rid)] IN
-              IF e.dl > now THEN TimerPass(Script, ts, Tail(snap), Min2(nw, e.dl), now, fired)
+              IF e.dl > now THEN TimerPass(Script, ts, Tail(snap), Min2(nw, e.dl), now, clk, fired)
               ELSE LET sc == Script(e.cb)
-                       ts1 == DoOps(ts, sc.ops, now)                  \* what the callback does
-                       f2 == Append(fired, [rid |-> rid, cb |-> e.cb])
+                       clk1 == clk + sc.busy                          \* the callback takes this long ...
+                       ts1 == DoOps(ts, sc.ops, clk1)                 \* ... and then does this
+                       f2 == Append(fired, [rid |-> rid, cb |-> e.cb, t |-> clk])
                    IN IF sc.ret
                       THEN LET dl2 == Advance(e.dl, e.delta, now)
                                ts2 == IF HasRid(ts1.tms, rid)
                                       THEN [ts1 EXCEPT !.tms[IdxRid(ts1.tms, rid)].dl = dl2] ELSE ts1
-                           IN TimerPass(Script, ts2, Tail(snap), Min2(nw, dl2), now, f2)
-                      ELSE TimerPass(Script, [ts1 EXCEPT !.tms = DelRid(@, rid)], Tail(snap), nw, now, f2)
+                           IN TimerPass(Script, ts2, Tail(snap), Min2(nw, dl2), now, clk1, f2)
+                      ELSE TimerPass(Script, [ts1 EXCEPT !.tms = DelRid(@, rid)], Tail(snap), nw, now, clk1, f2)
 
 Rids(tms) == [i \in 1..Len(tms) |-> tms[i].rid]
 \* a whole job pass of an ECU without transport sessions, then the sleep decision
-\* [ts, fired, slept, until, again]
+\* [ts, fired, slept, until, clk]
 JobPass(Script(_), ts, now) ==
-    LET r == TimerPass(Script, ts, Rids(ts.tms), now + IdleSleep, now, <<>>) IN
-    IF r.nw - now > 0
+    LET r == TimerPass(Script, ts, Rids(ts.tms), now + IdleSleep, now, now, <<>>) IN
+    IF r.nw - r.clk > 0
     THEN IF r.ts.tok > 0
-         THEN [ts |-> [r.ts EXCEPT !.tok = @ - 1], fired |-> r.fired, slept |-> FALSE, until |-> 0]
-         ELSE [ts |-> [r.ts EXCEPT !.su = r.nw + WakeLat], fired |-> r.fired, slept |-> TRUE, until |-> r.nw + WakeLat]
-    ELSE [ts |-> r.ts, fired |-> r.fired, slept |-> FALSE, until |-> 0]
+         THEN [ts |-> [r.ts EXCEPT !.tok = @ - 1], fired |-> r.fired, slept |-> FALSE, until |-> 0, clk |-> r.clk]
+         ELSE [ts |-> [r.ts EXCEPT !.su = r.nw + WakeLat], fired |-> r.fired, slept |-> TRUE, until |-> r.nw + WakeLat, clk |-> r.clk]
+    ELSE [ts |-> r.ts, fired |-> r.fired, slept |-> FALSE, until |-> 0, clk |-> r.clk]
 =============================================================================
